@@ -198,6 +198,9 @@ func (x *Exec) zzverif(name string, c *CallCtx) Value {
 	case "NoMerge":
 		x.noMerge = true
 		return nil
+	case "Summarize":
+		x.localSumm[x.constStr(a[0], "function name")] = true
+		return nil
 	case "MergeCallee":
 		x.localMerge[x.constStr(a[0], "function name")] = true
 		return nil
